@@ -313,7 +313,12 @@ impl Evaluator {
             }
         }
 
-        eval
+        // Scores at or beyond the mate threshold are reserved for checkmate. A huge material
+        // count must neither look like one nor fall outside the window the search starts with
+        eval.clamp(
+            Evaluation::NEG_INF + Evaluation(1),
+            Evaluation::POS_INF - Evaluation(1),
+        )
     }
 }
 
